@@ -619,6 +619,13 @@ func ruleR08_1(p *Program, r *Report) {
 			key := shortFn(fn) + "|" + lab.get(what)
 			good := false
 			for _, leaf := range p.valueSources(rd) {
+				for {
+					if mi, ok := leaf.(*ssa.MakeInterface); ok {
+						leaf = mi.X
+						continue
+					}
+					break
+				}
 				if root, sel, ok := fieldLoad(leaf); ok && root == recv && sel == "."+srcField {
 					good = true
 				} else {
